@@ -121,26 +121,49 @@ def cmpTplL : List TplItem → List TplItem → Ordering
   | a :: as, b :: bs => thenCmp (cmpTpl a b) (cmpTplL as bs)
 end
 
-/-- `N { integral, fractional }` of a canonical decimal literal -/
-def numParts (c : String) : Int × Option Int :=
-  match c.splitOn "." with
-  | [i] => (i.toInt?.getD 0, none)
-  | [i, f] =>
-    let neg := c.startsWith "-"
-    let digits := (f ++ "000000000").take 9
-    let fr : Int := (digits.toString.toNat?.getD 0 : Nat)
-    (i.toInt?.getD 0, some (if neg then -fr else fr))
-  | _ => (0, none)
+/-- sign, digits and decimal exponent of a canonical decimal literal (`-2.5`, `1e+21`, `1.5e-7`): value = ±digits·10^exp -/
+def parseDec (c : String) : Bool × Nat × Int :=
+  let neg := c.startsWith "-"
+  let body := if neg then String.ofList (c.toList.drop 1) else c
+  let (mant, ex) : String × Int := match body.splitOn "e" with
+    | [m, e] => (m, (e.replace "+" "").toInt?.getD 0)
+    | _ => (body, 0)
+  match mant.splitOn "." with
+  | [i, f] => (neg, (i ++ f).toNat?.getD 0, ex - (f.length : Int))
+  | _ => (neg, mant.toNat?.getD 0, ex)
+
+/-- `N { integral, fractional, exact_bits }` of a canonical decimal literal: the integral part saturates at the ends of
+i64, the fraction is its first nine decimals, and the third component stands for the bit pattern (kept only when the first
+two do not determine the number; bit patterns order by sign first, then by magnitude) -/
+def numParts (c : String) : Int × Option Int × Option (Bool × Nat × Int) :=
+  let (neg, d, e) := parseDec c
+  let p := 10 ^ (-e).toNat
+  let ip : Nat := if e ≥ 0 then d * 10 ^ e.toNat else d / p
+  let isInt : Bool := e ≥ 0 || d % p == 0
+  let frac9 : Nat := if e ≥ 0 then 0 else (d % p) * 1000000000 / p
+  let sat : Nat := if ip > 9223372036854775807 then (if neg then 9223372036854775808 else 9223372036854775807) else ip
+  let integral : Int := if neg then -(sat : Int) else sat
+  let huge : Bool := ip ≥ 9223372036854775000
+  (integral, (if isInt then none else some (if neg then -(frac9 : Int) else frac9)),
+    (if isInt && !huge then none else some (neg, d, e)))
+
+/-- magnitudes `d·10^e` compared exactly -/
+def cmpMag (a b : Nat × Int) : Ordering :=
+  let e := min a.2 b.2
+  compare (a.1 * 10 ^ (a.2 - e).toNat) (b.1 * 10 ^ (b.2 - e).toNat)
 
 def cmpConst : JsVal → JsVal → Ordering
   | .bool a, .bool b => compare a.toNat b.toNat
   | .bool _, _ => .lt
   | _, .bool _ => .gt
   | .num a, .num b =>
-    let (ia, fa) := numParts a
-    let (ib, fb) := numParts b
-    thenCmp (compare ia ib) (match fa, fb with
+    let (ia, fa, xa) := numParts a
+    let (ib, fb, xb) := numParts b
+    thenCmp (compare ia ib) (thenCmp (match fa, fb with
       | none, none => .eq | none, some _ => .lt | some _, none => .gt | some x, some y => compare x y)
+      (match xa, xb with
+      | none, none => .eq | none, some _ => .lt | some _, none => .gt
+      | some x, some y => thenCmp (compare x.1.toNat y.1.toNat) (cmpMag x.2 y.2)))
   | _, _ => .eq
 
 def typedIdx (k : String) : Nat :=
